@@ -9,17 +9,31 @@ import vlib
 
 PROPS = "Props/C03.v"
 RULE = ("correspondence: for generated programs (all 20 operators incl. both native graph operators with their "
-        "operand layout, Python literals, None, empty / singleton n-ary forms, *_CONSTANT nodes, ill-typed nodes) "
-        "and each of the five backend names, the real Solver.find_answer / Solver.solve / backend-class API is run "
-        "with a fake entry point (fake pycsugar / enigma_csp / cspuz_core modules, fake subprocess in _subproc) that "
-        "records the text and answers with a reply produced by the Coq transcription of CspuzSugarInterface.run() "
-        "from the text it was handed; the text is compared byte-for-byte with the extracted model's description, "
-        "the entry point with the model's, (return value, sol vector | error enum) with the extracted reply "
-        "parsers, also on a malformed reply stream; CPython's int/strip/split/in are compared with their Coq "
-        "transcriptions.  search: the emitted text is read by the reference Sugar parser and its declarations, "
-        "answer keys and the meaning of every constraint under random assignments are compared with the Solver's "
-        "variables, keys and eval of the posted trees; parsed replies are compared with the assignment / fact set "
-        "that produced them.  A case is non-trivial when it is a distinct (kind, program, backend, reply) tuple.")
+        "operand layout, Python literals, None, empty / singleton n-ary forms, *_CONSTANT nodes, ill-typed nodes; ints "
+        "made at run time, domains and literals around the small-int cache and digit-width boundaries, ids with up to "
+        "four digits) and each of the five backend names, the real Solver.find_answer / Solver.solve / backend-class "
+        "API is run with a fake entry point (fake pycsugar / enigma_csp / cspuz_core modules, fake subprocess in "
+        "_subproc) that records the text and answers with a reply produced by the Coq transcription of "
+        "CspuzSugarInterface.run() from the text it was handed; the backend is named by keyword / positionally / as a "
+        "class / through config.default_backend, with config.backend_path and solver_timeout set or not; the text is "
+        "compared byte-for-byte with the extracted model's description (for the refinement loop of "
+        "Solver.solve(backend='sugar') and for the backend-class API with the history model: one object, every "
+        "add_constraint call in order), the entry point with the model's, (return value, sol vector | error enum) with "
+        "the extracted reply parsers, also on a malformed reply stream; histories: one Solver called two or three times "
+        "with Solver.ensure / add_answer_key in between, one backend object used for several rounds of add_constraint + "
+        "solve / solve_irrefutably with changing keys, later replies unsat half of the time, sol fields not reset in "
+        "between; CPython's int/strip/split/in are compared with their Coq transcriptions.  search: the emitted text "
+        "(first description and every description of the refinement loop, against Solver.constraints + the clauses "
+        "posted so far) is read by the reference Sugar parser and its declarations, answer keys and the meaning of every "
+        "constraint under random assignments are compared with the Solver's variables, keys and eval of the posted "
+        "trees; parsed replies are compared with the assignment / fact set that produced them; end to end: small "
+        "programs (1-4 variables) are solved by a reference solver placed behind the fake entry points (it reads the "
+        "text with the reference parser and enumerates the declared domains), Solver.find_answer / Solver.solve of all "
+        "five backends, histories included, must report what enumeration of the Solver's own program gives, the model "
+        "set of every description must equal the model set of the posted constraints, the description must reach the "
+        "entry point the backend name stands for, and the Solver's constraints / keys / variables and the lists given "
+        "to add_constraint must be unchanged by the call.  A case is non-trivial when it is a distinct (kind, program, "
+        "backend, reply) tuple.")
 TRUSTED = [
     "reading of the Sugar CSP syntax (atoms, parentheses, operator names and arities, (int N LO HI)/(bool N)) and of "
     "CspuzSugarInterface.java loadProblem()/run() as transcribed in Backend/SugarReply.v (the Java file is read, never executed: no JVM offline)",
@@ -35,6 +49,7 @@ ASSUMPTIONS = [
     "operands of expression nodes are Expr objects, Python bool/int or None; variable ids are non-negative ints; replies are ASCII",
     "well-typed trees = what cspuz's own constructors build (Op.SUB has two or more operands: a one-operand SUB would print as Sugar's negation)",
     "timeouts / process handling of _subproc.run_subprocess are out of scope (only the text handed over and the decoded reply are observed)",
+    "a failed add_constraint (exception inside the conversion) may leave part of its list behind; histories are not followed past such an error",
 ]
 
 ERR = {1: "IndexError", 2: "KeyError", 3: "AssertionError", 4: "TypeError", 5: "ValueError",
@@ -589,6 +604,21 @@ def model_desc(m, backend, mode, variables, keys, constraints):
     return r
 
 
+def model_hist(m, backend, mode, variables, keys, posts):
+    """Backend/SugarHistory.v: one backend object, posts = [("L", [trees]) | ("O", tree)] in call order"""
+    req = "HIST %s %s VARS %s K [%s ] P%s E" % (
+        backend, mode, vars_tok(variables), "".join(" 1" if k else " 0" for k in keys),
+        "".join(" L " + exprio.show_list(x) if t == "L" else " O " + exprio.show(x) for t, x in posts))
+    r = parse_model_res(m.call(req))
+    if r[0] == "ok":
+        return ("ok", unhex(r[1][0]))
+    return r
+
+
+def posts_of(extra):
+    return [("L", x) if isinstance(x, list) else ("O", x) for x in extra]
+
+
 def java_reply(m, text, sat, refuted=()):
     """the reply CspuzSugarInterface.run() prints for this text (Coq transcription)."""
     if sat is None:
@@ -666,8 +696,12 @@ def flow_case(ctx, m, rng, solver, backend, deduction, kinds, malformed=False, s
     mode_native = deduction and native
     texts_ok = True
     for ci, (ent, args, text) in enumerate(calls):
-        flat = flat_posted(posted[ci] if ci < len(posted) else [])
-        md = model_desc(m, backend, "D" if mode_native else "A", variables, keys, cons + flat)
+        extra = posted[ci] if ci < len(posted) else []
+        if deduction and not native:
+            # the refinement loop: one backend object, the initial list and then one clause per round
+            md = model_hist(m, backend, "A", variables, keys, [("L", cons)] + posts_of(extra))
+        else:
+            md = model_desc(m, backend, "D" if mode_native else "A", variables, keys, cons + flat_posted(extra))
         texts_ok &= ctx.corr(pre + "text", (tag, ci), md, ("ok", text))
         ctx.corr(pre + "entry", (backend, ci, form, exp_entry and exp_entry[0]), (entry, exp_entry), (ent, args))
     if not calls:
@@ -804,7 +838,7 @@ def direct_history(ctx, m, rng, solver):
         ctx.corr("dhist-init", (vtok, backend), ("ok",), made[:1])
         return
     b = made[1]
-    posted = []
+    posted, posts = [], []
     if rng.random() < 0.5:
         stale_sols(variables)
     for rnd in range(rng.choice([2, 3, 3, 4])):
@@ -825,12 +859,15 @@ def direct_history(ctx, m, rng, solver):
             replies.append(rep)
             return rep
 
+        with_list = bool(arg) or rng.random() < 0.5
+
         def go():
-            if arg or rng.random() < 0.5:
+            if with_list:
                 b.add_constraint(arg)
             for c in new[split:]:
                 b.add_constraint(c)
             return b.solve_irrefutably(kcont(keys)) if deduction else b.solve()
+        posts += ([("L", list(arg))] if with_list else []) + [("O", c) for c in new[split:]]
         with Fakes(responder) as fk:
             with warnings.catch_warnings():
                 warnings.simplefilter("ignore")
@@ -843,17 +880,18 @@ def direct_history(ctx, m, rng, solver):
         if out[0] == "ok":
             out = ("ok", ["1" if out[1] is True else "0" if out[1] is False else repr(out[1])] + observe_sol(variables))
         tag = (vtok, exprio.show_list(posted), tuple(keys), backend, deduction, rnd)
-        md = model_desc(m, backend, "D" if deduction else "A", variables, keys, posted)
+        md = model_hist(m, backend, "D" if deduction else "A", variables, keys, posts)
         if not fk.calls:
             ctx.corr("dhist-text-error", tag, md, out)
             if md[0] == "err" and md[1] != "NotImplementedError":
                 return  # a failed conversion may leave a partial list behind (list += map(...)): not followed
             continue
-        text_ok = ctx.corr("dhist-text", tag, md, ("ok", fk.calls[0][2]))
+        ctx.corr("dhist-text", tag, md, ("ok", fk.calls[0][2]))
         ctx.corr("dhist-calls", tag, 1, len(fk.calls))
         req = "%s %s %s" % ("PD" if deduction else "PA", vtok, hexs(replies[0]))
         ctx.corr("dhist-reply", (tag, replies[0]), parse_model_res(m.call(req)), out)
-        if text_ok and len(set(v.id for v in variables)) == len(variables):
+        if len(set(v.id for v in variables)) == len(variables):
+            # material for search whether or not the tie held: object reuse is reachable only through this API
             ctx._c03.append(dict(variables=variables, keys=list(keys), cons=list(posted), backend=backend,
                                  deduction=deduction, text=fk.calls[0][2], asg=asg if sat else None, refuted=refuted,
                                  out=out, tag="VARS %s K %s C %s round %d" % (vtok, [int(k) for k in keys],
@@ -902,8 +940,9 @@ def direct_api(ctx, m, rng, solver):
             out = vlib.guarded(go)
     if out[0] == "ok":
         out = ("ok", ["1" if out[1] is True else "0" if out[1] is False else repr(out[1])] + observe_sol(variables))
-    tag = (vars_tok(variables), exprio.show_list(cons), tuple(keys), backend, deduction)
-    md = model_desc(m, backend, "D" if deduction else "A", variables, keys, cons)
+    tag = (vars_tok(variables), exprio.show_list(cons), tuple(keys), backend, deduction, split)
+    md = model_hist(m, backend, "D" if deduction else "A", variables, keys,
+                    [("L", cons[:split])] + [("O", c) for c in cons[split:]])
     if not fk.calls:
         ctx.corr("direct-text-error", tag, md, out)
         return
@@ -993,7 +1032,9 @@ def check_text_property(ctx, m, rng, variables, keys, cons, text, deduction, whe
     if got_keys != want_keys:
         ok = False
         ctx.violation("keys:" + where, "answer keys named in the text differ from the registered ones",
-                      dict({"program": ptag, "text": text, "named": got_keys, "expected": want_keys}, **more))
+                      dict({"program": ptag, "text": text,
+                            "named": None if got_keys is None else [unhex(k) for k in got_keys],
+                            "expected": None if want_keys is None else [unhex(k) for k in want_keys]}, **more))
     if nc != len(cons):
         ctx.violation("count:" + where, "number of constraints in the text differs from the number posted",
                       dict({"program": ptag, "text": text, "in_text": nc, "posted": len(cons),
